@@ -233,9 +233,14 @@ def shard(spec):
     the given order, so that state leaking from one dialect's objects to
     another's (a cache shared between encoder classes, say) shows the same way
     on every run."""
-    order, words = spec
+    base_order, words = spec
     acc = Acc()
     for s in words:
+        # who sees a text first decides what a leak looks like: with 11 sets two fixed orders do not
+        # put every set in front of every other, so each text starts at its own place in the cycle
+        # (a deterministic function of the text; texts of the same kind cover all starting points)
+        rot = (sum(ord(c) for c in s) + len(s)) % len(base_order)
+        order = tuple(base_order[rot:]) + tuple(base_order[:rot])
         for i, d in enumerate(order):
             vs, cls = check(d, s)
             acc.n += 1
@@ -248,7 +253,7 @@ def shard(spec):
                                       v["diagnosis"], re.sub(r"[a-z]", "a", re.sub(r"[0-9]", "9", s))[:12]))
             else:
                 acc.nontrivial += 1
-    acc.sample({"order": list(order), "texts": words[:3]}, cap=1)
+    acc.sample({"order": list(base_order), "texts": words[:3]}, cap=1)
     return acc
 
 
@@ -286,7 +291,7 @@ def run(ctx):
     cov = {
         "evaluations": acc.n, "distinct_nontrivial": acc.nontrivial,
         "rule": "%d texts (every string of length <= %s over %r%s, plus %d curated borderline texts) x 11 "
-                "grammar/decoder/encoder sets (the five configurations, ISISEncoder's own default pairing, and the five again with grammar and decoder built as separate instances), in both dialect orders, each shard in a fresh process; per text: decoder cascade, 16 token predicates, encoder.encode_string "
+                "grammar/decoder/encoder sets (the five configurations, ISISEncoder's own default pairing, and the five again with grammar and decoder built as separate instances), in both directions around the cycle of sets, every text starting at its own place in the cycle, each shard in a fresh process; per text: decoder cascade, 16 token predicates, encoder.encode_string "
                 "and re-decoding of what it wrote; non-trivial = all consistency conditions evaluated and satisfied"
                 % (len(W), "3" if ctx.quick else "4", ALPHA14 if ctx.quick else ALPHA23,
                    " and <= 2 over the 23-character alphabet" if ctx.quick else "", len(CURATED)),
